@@ -103,7 +103,10 @@ fn raw(c: &Cand) -> RawCandidate {
         rule_id: id32(u64::from(c.compact)),
         compact_rule: c.compact,
         scope_hash: c.scope,
-        scope: NodeKey { warp_id: WarpId(id32(1)), local_id: NodeId(id32(1)) },
+        // the instance a candidate was matched in is NOT part of its admission: footprints name resources of any
+        // instance (a descended candidate reads the portal slots of its ancestors), so conflicts and blocking witnesses
+        // must not depend on it; derive it from the key so that conflicting candidates sit in different instances
+        scope: NodeKey { warp_id: WarpId(id32(1 + u64::from((c.scope[31] ^ (c.compact as u8)) & 1))), local_id: NodeId(id32(1)) },
         footprint: real_fp(&c.fp),
     }
 }
